@@ -162,6 +162,14 @@ CHECKS = {
             'solving, and produce its advertised facts.',
             'Trusts the shadow comparison and the re-implemented trivial pattern; Z3 stubbed as in the repository replay.',
             'DESIGN.md 2 C14'),
+    'C13': ('invariant hook after every editing operation applied to a copy of the state: full re-check, gap report vs visible '
+            'placeholders, goal preservation, id contiguity and citation visibility (walked by the harness), export -> parse_proof '
+            'round trip, deep snapshot of the original state',
+            'Exploration: every prefix of sampled (thorough: all 2147) recorded library proofs, perturbed operations (other goals / '
+            'facts, repeats, cut, cases, introduction, forall_elim, exists_elim, revert_intro, rewrite, raw line edits), generated '
+            'propositional and first-order goals, directed renumbering scenarios, and the IDE history cache driven step by step.',
+            'Trusts the shadow snapshots and the structural walk; Z3 stubbed as in the repository replay.',
+            'DESIGN.md 2 C13'),
 }
 
 NOT_YET = {}
